@@ -57,11 +57,18 @@ _c("C20",
    "concrete operator classes are the quantified parameter.",
    technique="Lean 4 proof (invariant over a heap semantics) about a schedule regenerated from the source by a translator + trace correspondence with the real class")
 _c("C01",
-   "17 theorems (Props/C01.lean) about an executable model of mat_meiosis/mat_mate/mat_dh and the seven mate() methods, for all sizes, selfing depths, counters and draws: the literal segment-copy loop equals "
-   "the parity mosaic; the source copy switches only where xoprob > 0; every progeny copy is a mosaic of exactly the haplotypes the cross configuration assigns to that side (and the pedigree of intermediate hybrids exists); "
-   "DH progeny homozygous; count = sum nmating*nprogeny; family labels, names, counters; the Spec oracle (a reachability DP) is proved to decide the mosaic predicate and to accept every model output.",
-   "numpy repeat/lexsort/unique as modelled (differentially tested each run); generator contract 0 <= u; marker metadata and parents-untouched are pass-through checked by snapshots. "
-   "Partial: order_preserved_partial (generation order needs progeny_counter+count <= 10^7 because group_taxa sorts names lexicographically; counterexample proved).")
+   "52 theorems (Props/C01.lean) about an executable model of mat_meiosis/mat_mate/mat_dh, their duplicates dense_meiosis/dense_dh/dense_cross (buffer-level, proved equal whatever numpy.empty held) and the seven mate() methods, "
+   "for all sizes, selfing depths, counters and draws: the literal segment-copy loop equals the parity mosaic; the source copy switches only where xoprob > 0; every progeny copy is a mosaic of exactly the haplotypes the cross "
+   "configuration assigns to that side and every progeny has the pedigree of intermediate hybrids its configuration row prescribes (lineage, decided exactly by the joint hidden-state test pedCheck); all doubled haploids of one mating are "
+   "gametes of ONE line and back-cross / four-way progeny of one mating share their F1(s); DH progeny homozygous; count = sum nmating*nprogeny with the per-cross product formed in int64, exact for every count dtype up to 32 bits "
+   "(D70 repaired, pre-repair counterexample kept); family labels, names (injective), counters, closed form of the taxa-group metadata; row order characterised for ALL counters (the unique strictly (family, name-string)-sorted arrangement); "
+   "all 13 marker-metadata fields carried over; numpy's negative-index rule; parents untouched on a heap model of mate()'s array traffic; every valid input accepted; the Spec oracle is sound (spec_sound), equivalent to the stated Prop "
+   "(spec_iff), and complete for the self / two-way protocols with up to two selfings and for the three utilities.",
+   "numpy repeat/lexsort/unique/multiply(dtype=int64) as modelled (differentially tested each run); generator contract 0 <= u; heap model read off the source and probed by snapshot / aliasing / stale-result checks on every case; "
+   "DensePhasedGenotypeMatrix constructor and group_taxa as modelled. Partial: order_preserved_partial (generation order needs progeny_counter+count <= 10^7 because group_taxa sorts names as strings; counterexample proved; "
+   "order_characterised is the full statement); count_product_exact_int64_partial (64-bit counts: exact below 2^63; counterexample 2^32 x 2^32); the completeness theorems gamete_realised_partial, util_spec_complete_partial, "
+   "spec_complete_twoWay_partial, spec_complete_selfed_partial, selfing_chain_realised_partial need xoprob[0] > 0, names below the overflow, self/two-way and nself <= 2 - each restriction shown necessary by a proved counterexample "
+   "(gamete_start_, spec_complete_names_, spec_complete_siblings_counterexample). Fixed: D18 (7fe10396), D70 (927aac93). No open finding.")
 _c("C14",
    "21 theorems (Props/C14.lean): the transcribed env/rep double loop equals its closed form; exactly one record per (taxon, env, rep) with that taxon's labels, for any layout and draw stream; zero noise returns the true values; "
    "heritability algebra (var_A/(var_A+var_err) = h2, necessity of var_A > 0, per-trait setter); mean-phenotype breeding values equal each taxon's arithmetic mean over its records, are aligned to any genotype taxa list "
@@ -106,10 +113,15 @@ _c("C10",
    "any counts) and select_taxa is a closed step (every progeny allele at locus j occurs in the parents at j); hence along EVERY closed history usl never increases, lsl never decreases, every descendant lies within every ancestor's limits, lost alleles stay lost.",
    "Partial: limits_rounded_exact_partial (float comparisons p>0, p>=1 agree with exact ones for ploidy*ntaxa <= 2^53). Z@u and BreedingValueMatrix scale/unscale compared with tolerance; draws recorded and replayed for matings up to 900 uniforms.")
 _c("C15",
-   "33 theorems (Props/C15.lean): unscale(from_numpy(raw)) = raw for every matrix and ANY sqrt function incl. constant and all-NaN traits; NaN stays NaN and does not influence other taxa; stored traits are centred with unit variance (constant trait: scale 1); "
-   "tmax/tmin/trange/tmean/targmax/targmin (unscale=True) equal numpy's on the raw trait; select_taxa entry law; histories of select/delete/insert/adjoin (+ in-place reorder/remove for raw values) refine the same edits on raw data; DenseScaledMatrix transform/untransform/rescale laws.",
-   "numpy.sqrt through its contract; taxa labels are C03's. Partial: history_*_partial (the four class-defined ops). tstd/tvar are full for the fixed code (D9 fixed in /repo). Known findings: D23 (inherited concat_taxa concatenates standardised values), "
-   "D24 (inherited in-place append/incorp use the receiver's location/scale), D25 (in-place remove leaves location/scale stale), D26 (constant trait with inexact float mean gets scale 1e-17) - counterexamples proved.")
+   "82 theorems (Props/C15.lean) over any ordered field and ANY sqrt function unless a part of its contract is named: unscale(from_numpy(raw)) = raw for every matrix incl. constant, NaN-bearing, all-NaN traits and 0 taxa; NaN stays NaN and does not influence other taxa; "
+   "stored traits are centred with unit variance, a constant trait has location = the constant and scale 1 for EVERY sqrt (constancy is read off the data since the fix of D26); tmax/tmin/trange/tmean/tstd/tvar/targmax/targmin (unscale=True) equal numpy's on the raw trait, "
+   "and (all but tmean) on unscale() in ANY state of the object and along every history of all nine taxa operations as they are; with ARBITRARY results of numpy.nanmean / nanstd in from_numpy / rescale the round trip, NaN positions, the constant-trait clause, every summary but tmean "
+   "and every history of select/delete/insert/adjoin still hold exactly (history_refines_from_numpy_any_rounding); histories of the four class-defined operations (list or numpy index objects) refine the same edits of the raw data; exact as-is characterisations of the five inherited "
+   "routines; the proposed overrides meet the full statement for all nine; Spec soundness / Spec<->Prop lemmas; DenseScaledMatrix transform/untransform/rescale/unscale on columns and on a heap of arrays with identities.",
+   "numpy.sqrt through its contract; the affine arithmetic is exact (only the two reductions may round); taxa labels and numpy index normalisation are C03's; sort/group enter as the observed lexsort permutation. Partial: history_refines_from_numpy_partial, "
+   "history_ix_refines_from_numpy_partial, history_preserves_raw_partial, history_summaries_partial, spec_sound_history_partial (operation set restricted because of D23-D25; necessity by the concat/append/incorp/remove_stale_location counterexamples). D9 and D26 fixed in /repo "
+   "(tstd_prerepair_counterexample, inexact_mean_prerepair_counterexample kept). Known findings: D23 (inherited concat_taxa concatenates standardised values / TypeError for the estimated classes), D24 (inherited in-place append/incorp use the receiver's location/scale), "
+   "D25 (in-place remove leaves location/scale stale); patch patches/C15_D23_D25.diff evaluated (0 Spec failures with it).")
 _c("C05",
    "39 theorems (Props/C05.lean) over any ordered field and any square-root function: for every duplicate-free decision the subset, integer-count, binary-indicator and real (1/k) encodings give the same latent vector for every criterion family "
    "(EBV/GEBV/wGEBV/gwGEBV/random/EMBV/UC/OHV linear forms, OCS, mean relationship, mean heterozygosity, L1, L2, family, PAFD/PAU/MOGS); order independence for all families; the reported objectives are weights times the user transformation of the latent vector; "
